@@ -20,7 +20,7 @@ ASSUMPTIONS = _x1.X1_ASSUMPTIONS + ["no pause/suspension in these schedules (rew
 F = ("raise", "fail", "fail_late")
 _q = ["count2", "scan2", "grid22s", "nested", "fly1", "cleanup", "bare", "twomotors"]
 SPECS = {
-    "quick": [spec(k, [], bound=1, faults=F, ly=1, oe=oe) for k in _q for oe in ("p", "s")],
+    "quick": [spec(k, [], bound=1, faults=F, ly=1, oe=oe) for k in _q + ["watch"] for oe in ("p", "s")],
     "thorough": [spec(k, [], bound=1, faults=F, ly=1, oe=oe, a=a) for k in _q + ["flyonly", "relscan2", "listscan", "tworuns"] for oe in ("p", "s") for a in (0, 1)]
     + [spec(k, [], bound=2, faults=F, ly=1, oe="s") for k in ("scan2", "bare", "count2")],
 }
@@ -38,6 +38,7 @@ def oracle(scn, obs, ref, schedule):
     out = []
     if obs.outcome != "ok" or schedule.get("injections") or schedule.get("decisions"):
         return out
+    out.extend(_wait_covers_its_group(obs))
     faults = schedule.get("faults", {})
     if not faults:
         return out
@@ -122,6 +123,40 @@ def oracle(scn, obs, ref, schedule):
 
 def _handled_by_plan(scn):
     return False
+
+
+def _wait_covers_its_group(obs):
+    """A wait(group=g) that returned normally returned after every status started under g had finished.
+
+    (Otherwise a failure of such a status can only surface later than "the wait on its group", or never.)
+    """
+    out = []
+    tl = obs.timeline
+    ylog = {id(m): (kind, v) for _k, m, kind, v in obs.extra.get("ylog", [])}
+    started = {}  # group -> [op index of the status-returning device op]
+    finished = {t[3]: i for i, t in enumerate(tl) if t[0] == "status" and len(t) > 3}
+    msg_at = [i for i, t in enumerate(tl) if t[0] == "msg"]
+    cur = None
+    for i, t in enumerate(tl):
+        if t[0] == "msg":
+            cur = obs.msgs[t[1]]
+            if cur.command == "wait" and not cur.kwargs.get("timeout") and cur.kwargs.get("error_on_timeout", True):
+                g = _group_of(cur)
+                kind, v = ylog.get(id(cur), (None, None))
+                j = next((x for x in msg_at if x > i), None)
+                if kind == "resp" and v is True and j is not None:
+                    for op in started.pop(g, []):
+                        fin = finished.get(op)
+                        if fin is None or fin > j:
+                            out.append(("wait-returned-before-group-finished", f"wait(group={g!r}) returned True while the status of device op #{op} of that group was still in progress"))
+                else:
+                    started.pop(g, None)
+        elif t[0] == "dev" and cur is not None and t[2] in ("set", "trigger", "kickoff", "complete") and cur.command == t[2]:
+            if t[4] in obs.extra.get("results", {}):  # the operation did return a status (it did not raise)
+                started.setdefault(cur.kwargs.get("group"), []).append(t[4])
+        elif t[0] == "status" and len(t) > 3:
+            finished[t[3]] = i
+    return out
 
 
 items, run_item, replay, describe = _x1.bind(SPECS, oracle)
